@@ -108,7 +108,7 @@ RawTrails == Trails \cup {<<"wse", "etrail">>}
 ETag(lbl, name, trail) ==
     LET a == <<"lit:</", name>> \o trail \o <<"lit:>">>
         n == Len(a)
-        l2 == IF trail = <<"ff">> THEN lbl \o ".ff" ELSE IF Len(trail) = 2 THEN lbl \o ".attrs" ELSE lbl
+        l2 == IF trail = <<"ff">> THEN "etag.ff" ELSE IF Len(trail) = 2 THEN lbl \o ".attrs" ELSE lbl
     IN Con(lbl, a, <<[Tk("EndTag", l2, 1, n) EXCEPT !.fold = n, !.tlo = 2, !.thi = 2,
                                                   !.tm = IF Len(trail) = 2 THEN "lowerprefix" ELSE "lower"]>>)
 
@@ -190,8 +190,8 @@ Raw(el, c1, c2, as, content, trail) ==
     IN Cat(Cat(st, tx), ETag(lbl \o ".end", Name(el, c2), trail))
 Raws ==
     UNION {{Raw(el, "l", "l", <<>>, s, <<>>) : s \in Contents(el)} : el \in RawElems}
-    \cup {Raw(el, cc[1], cc[2], <<>>, s, t) : el \in RawElems, cc \in {<<"u", "m">>, <<"m", "u">>, <<"l", "u">>},
-                                               s \in SmallContents(el), t \in RawTrails}
+    \cup UNION {{Raw(el, cc[1], cc[2], <<>>, s, t) : cc \in {<<"u", "m">>, <<"m", "u">>, <<"l", "u">>},
+                                                      s \in SmallContents(el), t \in RawTrails} : el \in RawElems}
     \cup {Raw(el, "l", "l", <<a>>, <<"r:txt">>, <<>>) : el \in RawElems, a \in {NoVal("l"), AV("l", PlainEq, "dq")}}
 Plaintexts ==
     {[Cat(STag("raw.plaintext", Name("plaintext", cs), <<>>, <<"lit:>">>),
@@ -209,10 +209,11 @@ Xml(el, c1, c2, sat, content, trail) ==
     LET a == <<"lit:<", Name(el, c1)>> \o sat \o <<"lit:>">> \o content \o <<"lit:</", Name(el, c2)>> \o trail \o <<"lit:>">>
     IN Con(el, a, <<[Tk(IF el = "svg" THEN "SVG" ELSE "Math", el, 1, Len(a)) EXCEPT !.fold = 2, !.tlo = 2, !.thi = 2, !.tm = "lower"]>>)
 Xmls ==
-    {Xml(el, "l", "l", <<>>, s, <<>>) : el \in {"svg", "math"}, s \in SeqsUpTo(XA(el), 2)}
-    \cup {Xml(el, cc[1], cc[2], sat, s, t) : el \in {"svg", "math"}, cc \in {<<"u", "m">>, <<"m", "l">>},
-                                             sat \in XAttrs(el), s \in {<<>>, <<"x:txt">>}, t \in {<<>>, <<"wse">>}}
-    \cup {Xml(el, "l", "l", sat, <<"x:el">>, <<>>) : el \in {"svg", "math"}, sat \in XAttrs(el)}
+    UNION {{Xml(el, "l", "l", <<>>, s, <<>>) : s \in SeqsUpTo(XA(el), 2)}
+           \cup {Xml(el, cc[1], cc[2], sat, s, t) : cc \in {<<"u", "m">>, <<"m", "l">>},
+                                                    sat \in XAttrs(el), s \in {<<>>, <<"x:txt">>}, t \in {<<>>, <<"wse">>}}
+           \cup {Xml(el, "l", "l", sat, <<"x:el">>, <<>>) : sat \in XAttrs(el)}
+             : el \in {"svg", "math"}}
 
 ---------------------------------------------------------------------------
 (* template configuration: delimited regions in text, as attribute name, in attribute values, in raw text.
@@ -261,9 +262,35 @@ Core == IF Mode = "html"
 Pre == {TextPlain, ETagPlain}
 Post == {TextPlain, STagPlain}
 
-CanFollow(d, c) == d = <<>> \/ (~d[Len(d)].last /\ ~(d[Len(d)].c = "text" /\ c.c = "text"))
+CanFollow(d, c) == IF d = <<>> THEN TRUE ELSE ~d[Len(d)].last /\ ~(d[Len(d)].c = "text" /\ c.c = "text")
 
-Init == doc = <<>> /\ sp = 0
+(* vacuity: the atom classes (atom names without their element parameter) and token labels that an exhaustive run must
+   have used; written as the first line of the case file and checked against what was actually replayed *)
+Required ==
+    IF Mode = "html"
+    THEN [atoms |-> {"ws", "wse", "ff", "etrail", "lit", "name", "key:l", "key:u", "key:m", "dt:l", "dt:u", "dt:m",
+                     "esc:o", "esc:s", "esc:e", "esc:c", "esc:sx", "esc:sd", "r:txt", "r:lt", "r:tag", "r:amp", "r:la.self", "r:close",
+                     "x:txt", "x:el", "x:void", "x:otherend", "x:attr", "x:attr.dq.closer", "x:attr.sq.closer"}
+                    \cup {"val:" \o k : k \in ValKinds}
+                    \cup {"r:" \o k : k \in {"la.x", "la.sp", "la.other", "la.len.u", "la.len.m", "la.digit", "la.bs"}}
+                    \cup {"x:" \o k : k \in {"nested", "dq.closer", "sq.closer", "la.x", "la.sp"}}
+                    \cup {"txt:" \o k : k \in {"plain", "amp", "gt", "ws", "uni"}}
+                    \cup {"cmt:" \o k : k \in {"empty", "plain", "tag", "dash", "dashdash", "dashgt", "bang"}}
+                    \cup {"cd:" \o k : k \in {"plain", "markup", "brackets", "bracketgt", "empty"}}
+                    \cup {"dtbody:" \o k : k \in {"html", "public", "system"}},
+          labels |-> {"text", "doctype", "stag.open", "stag.close", "etag", "etag.ff", "svg", "math", "attr.none"}
+                     \cup {"attr." \o k \o eq.n : k \in ValKinds, eq \in Eqs}
+                     \cup UNION {{"raw." \o el \o ".open", "raw." \o el \o ".close", "raw." \o el \o ".text"}
+                                   : el \in RawElems \cup {"plaintext"}}
+                     \cup UNION {{"raw." \o el \o ".end", "raw." \o el \o ".end.attrs"} : el \in RawElems}]
+    ELSE [atoms |-> TK \cup {"T:end", "val:uqpre", "val:in", "esc:o", "esc:c", "r:txt", "r:la.x"},
+          labels |-> {"tmpl", "attr.Tname", "attr.Tname=uq", "attr.Tname=dq", "attr.preTname", "attr.preTname=uq", "attr.uqT", "attr.uqT~w=w",
+                      "attr.uqTT", "attr.uqpreT"}
+                     \cup {q \o k : q \in {"attr.dq", "attr.sq"}, k \in {"T", "preT", "Tpost", "preTpost"}}
+                     \cup {"raw." \o el \o ".text" : el \in RawElems}]
+
+Init == /\ doc = <<>> /\ sp = 0
+        /\ CSVWrite("%1$s", <<ToJson([required |-> Required])>>, IOEnv.VERIF_CASES)
 Next ==
     /\ Len(doc) < MaxLen
     /\ IF Sample
@@ -273,7 +300,7 @@ Next ==
                /\ \E c \in Core : CanFollow(doc, c) /\ doc' = Append(doc, c)
                /\ UNCHANGED sp
             \/ /\ sp = 0
-               /\ doc = <<>> \/ (Len(doc) = 1 /\ doc[1] \in Pre)
+               /\ IF doc = <<>> THEN TRUE ELSE Len(doc) = 1 /\ doc[1] \in Pre
                /\ \E c \in Full \ Core : CanFollow(doc, c) /\ doc' = Append(doc, c)
                /\ sp' = Len(doc) + 1
             \/ /\ sp # 0 /\ sp = Len(doc)
